@@ -7,7 +7,7 @@ open MuduoVerif.Gen.Rpc
 /-! ### halting -/
 structure HaltInv (s : Chan) : Prop where
   halt : s.halted = true → s.asserts = true ∧ s.pending = none ∧
-    ∃ m rest, s.log = .abort :: .arrived m :: rest ∧ m.type = .RESPONSE ∧ ¬ m.wellFormed
+    ∃ m rest, s.log = .abort :: .arrived m :: rest ∧ m.type = .RESPONSE ∧ ¬ respAssert m.payload.isSome m.err.isSome
   noAbort : s.halted = false → .abort ∉ s.log
 
 theorem HaltInv.init (a h : Bool) : HaltInv (init a h) := by
@@ -64,9 +64,7 @@ theorem HaltInv.step {s : Chan} (hi : HaltInv s) (a : Act) : HaltInv (step s a) 
           next hc =>
             constructor
             · intro _
-              refine ⟨by simpa using hc.1, hp', m, s.log, rfl, ht', ?_⟩
-              intro hw
-              exact hc.2 ((respAssert_iff m).mpr hw)
+              exact ⟨by simpa using hc.1, hp', m, s.log, rfl, ht', hc.2⟩
             · intro h; cases h
           · split
             · exact hi.keep hn rfl (fun h => by
@@ -119,12 +117,13 @@ theorem foldl_halted (acts : List Act) (s : Chan) (h : s.halted = true) : acts.f
   | nil => rfl
   | cons a rest ih => rw [List.foldl_cons, step_halted s a h]; exact ih
 
-/-- the defect: with `assert` compiled in, a RESPONSE with neither payload nor error stops the process -/
+/-- what an `assert` in the RESPONSE branch does (whatever it demands - `respAssert` is extracted from the
+    source; `True` when there is none): with `assert` compiled in, a RESPONSE that violates it stops the process -/
 theorem bare_response_halts (s : Chan) (m : Msg) (hn : s.halted = false) (hp : s.pending = none)
-    (ha : s.asserts = true) (ht : m.type = .RESPONSE) (hw : ¬ m.wellFormed) :
+    (ha : s.asserts = true) (ht : m.type = .RESPONSE) (hw : ¬ respAssert m.payload.isSome m.err.isSome) :
     (step s (.recv m)).halted = true ∧ (step s (.recv m)).log = .abort :: .arrived m :: s.log ∧
     (step s (.recv m)).outstanding = s.outstanding := by
-  have hc : s.asserts = true ∧ ¬ respAssert m.payload.isSome m.err.isSome := ⟨ha, fun h => hw ((respAssert_iff m).mp h)⟩
+  have hc : s.asserts = true ∧ ¬ respAssert m.payload.isSome m.err.isSome := ⟨ha, hw⟩
   simp [step, hn, recv, hp, (typeSwitch_response _).mpr ht, recvResponse, hc]
 
 /-! ### the configuration never changes -/
